@@ -297,3 +297,16 @@ void ok_h__fp_exp_basic(fp_t c, const fp_t a, const bn_t b) {
 	}
 	fp_free(r);
 }
+
+/* the zero test behind a static predicate helper (behaviour-preserving) */
+static int st_inv_none(const fp_t a) {
+	return fp_is_zero(a);
+}
+
+void ok_helper__fp_inv_exgcd(fp_t c, const fp_t a) {
+	if (st_inv_none(a)) {
+		RLC_THROW(ERR_NO_VALID);
+		return;
+	}
+	fp_invm_low(c, a);
+}
